@@ -53,5 +53,69 @@ CHECKS = {
     },
 }
 
+_WIRE_NOTE = ("bounded: value atoms at boundaries per kind, single-focus schemas (one field of interest per type, nested / flattened / oneof / "
+              "array / map positions); literal tables in harness/wire_types.go are trusted; random bytes for C06 are plain random testing")
+CHECKS.update({
+    "C01": {
+        "text": "TLC explores spec/J5Wire.tla (PickSlot x PickValue over 17 scalar kinds x cardinalities x positions incl. oneof arms, exposed "
+                "oneofs, flattened objects, maps, both Any flavours) with model properties RoundTrip and NoKeyCollision; every case is realised twice "
+                "(compiled j5s and raw descriptors), encoded and decoded by the real codec and compared under the stated equivalence; recorded "
+                "(value, document, decoded value) triples are validated by TLC against J5WireTrace (LawRoundTrip)",
+        "design_ref": "DESIGN.md 5.6, 6/C01", "note": _WIRE_NOTE,
+        "technique": "TLA+ wire-format spec + TLC (exhaustive single-focus space, simulation), replay into Go codec, TLC trace validation",
+    },
+    "C03": {
+        "text": "J5Wire.tla's PickSpelling and InjectFault actions enumerate every documented alternate spelling and exactly one fault of each "
+                "listed class at each position; the model's Dec gives the demanded verdict (SpellingInvariant, FaultRejected, faults disjoint from "
+                "spellings); the real JSONToProto/QueryToProto must accept every spelling with the denoted value and reject every fault",
+        "design_ref": "DESIGN.md 5.6, 6/C03", "note": _WIRE_NOTE,
+        "technique": "TLA+ wire-format spec with spelling/fault actions + TLC, contract replay into Go codec, TLC trace validation",
+    },
+    "C06": {
+        "text": "spec/J5WireTok.tla is a token-level pushdown model of the decoder with an action for every (control state, JSON token class) pair, "
+                "checked total by TLC (deadlock check on, ENABLED-based Total invariant); all token sequences <= 6 (thorough 8) tokens, url.Values "
+                "shapes, fault documents and simulated long sequences are replayed in isolated workers with a time budget; random bytes as residual",
+        "design_ref": "DESIGN.md 6/C06, 9", "note": _WIRE_NOTE,
+        "technique": "TLA+ token-level decoder model checked total by TLC, case replay with process isolation and time budget, TLC outcome-log validation",
+    },
+    "C08": {
+        "text": "J5Wire.tla's Enc gives the documented representation class of every value (bare vs quoted, padded std base64, RFC3339 Z, "
+                "zero-padded dates, short enum names, !type framing, flatten inlining, omitted unset members, JSON names); real encoder output is "
+                "re-read by a strict tokenizer and must equal the prediction on those attributes (member order projected away)",
+        "design_ref": "DESIGN.md 5.6, 6/C08", "note": _WIRE_NOTE,
+        "technique": "TLA+ wire-format spec (Enc) + TLC, contract replay with a strict JSON tokenizer, TLC trace validation",
+    },
+    "C04": {
+        "text": "spec/J5Rules.tla holds the rule/annotation catalogue of schema.proto and the writer/reader pair as operators with the model "
+                "invariant Read(Write(f)) = f; every catalogue entry with every admissible value is printed as a single-field j5s object, compiled, "
+                "reflected three ways (SchemaCache, SchemaSet, printed .proto text) and compared with the declared schema on the listed attributes",
+        "design_ref": "DESIGN.md 5.9, 6/C04", "note": "one ruled field per object; pairs of rules in thorough; literal concretisation trusted",
+        "technique": "TLA+ rule catalogue with writer/reader operators + TLC, contract replay (compile, reflect, re-reflect from text), TLC trace validation",
+    },
+    "C12": {
+        "text": "spec/J5Validate.tla builds (field kind, rule combination, candidate value) states with candidates around every induced bound and "
+                "the operator Allows; TLC checks every rule has an accepted and a rejected candidate; each declaration is compiled and "
+                "protovalidate's verdict on a dynamic message must equal Allows; recorded verdicts are re-evaluated by TLC (J5ValidateTrace)",
+        "design_ref": "DESIGN.md 5.7, 6/C12", "note": "bounds are small integers / named atoms; maps not generated; one ruled field per object",
+        "technique": "TLA+ rule-semantics spec (Allows) + TLC, contract replay through protovalidate, TLC trace validation",
+    },
+    "C17": {
+        "text": "spec/J5Entity.tla builds entity declarations by actions and defines EntityExpand / EntityConsistent (names from the entity via "
+                "casing tables, six schemas, query service, commands, publish and upsert topics, psm annotations, key flattening, path parameters, "
+                "status numbering); each declaration is compiled and the real descriptors and client StateEntity are projected and compared; "
+                "recorded expansions are validated by TLC against J5EntityTrace",
+        "design_ref": "DESIGN.md 5.5, 6/C17", "note": "focus-exhaustive within <= 3 keys / 2 data / 3 statuses / 3 events / 2 commands / 2 summaries, simulation beyond",
+        "technique": "TLA+ entity-expansion spec + TLC, contract replay through the real compiler and client API, TLC trace validation",
+    },
+    "C07": {
+        "text": "spec/J5Lang.tla generates every single-construct file of the documented field language (8 containers x 23 kinds x cardinality x "
+                "presence forms x rule sets) in isolation, plus one of 17 semantic faults; GeneratorClosed / FaultInvalid are checked by TLC; each "
+                "file (and token / line mutations, random texts) is compiled and linted by the real PackageSet: valid => accepted, any error => "
+                "position inside the file, no panic / hang; J5LangTrace re-evaluates Valid on recorded outcomes and cross-checks the tallies",
+        "design_ref": "DESIGN.md 6/C07, Appendix A", "note": "'documented language' is the model's Valid predicate (README, schema.proto); random bytes are plain random testing",
+        "technique": "TLA+ language-catalogue spec + TLC, replay through the real compiler with process isolation, TLC trace tally validation",
+    },
+})
+
 _NY = "check not built yet in this round; planned per DESIGN.md section 6 (TLA+ model + replay + trace validation)"
 PENDING = {("C%02d" % i): _NY for i in range(1, 21)}
